@@ -300,6 +300,7 @@ prop("C16", "c16",
       dict(run="^TestTokensHandedOutAfterAReloadVerify$", quick=1200, thorough=4000, shards_thorough=4),
       dict(run="^TestTokensVerifyWhileTheCertificateOfTheKeyRunsOut$", quick=4, thorough=48, shards_thorough=8),
       dict(run="^TestSignersWhoseSettingsReadAlikeKeepTheirTokensApart$", quick=200, thorough=2000, shards_thorough=2),
+      dict(run="^TestPublishedKeySetStaysWhileCertificateMetricsAreCollected$", quick=150, thorough=1500, shards_thorough=2),
       dict(run="^TestConcurrentIssuanceAndReload$", quick=1, thorough=1, shards_thorough=1, race=True),
       dict(run="^TestScheduledIssuanceAndReload$", quick=1500, thorough=30000, shards_thorough=4, instrument=True)],
      ["tokens served from cache across a reload are out of scope (the concurrent part uses a ttl below the caching threshold)",
@@ -410,6 +411,7 @@ prop("C19", "c19",
       dict(run="^TestMalformedObjectsOfABucketLeaveTheLoadedRuleSetsInEffect$", quick=400, thorough=6000, shards_thorough=2),
       dict(run="^TestRuleSetFileVanishingWhileItIsReadIsNotFatal$", quick=300, thorough=3000, shards_thorough=1),
       dict(run="^TestRedisCredentialsFileReloadsSurviveAnyContent$", quick=3000, thorough=60000, shards_thorough=2),
+      dict(run="^TestTrustStoreFilesOfAnyContentAreRefusedNotFatal$", quick=1500, thorough=30000, shards_thorough=2),
       dict(run="^TestOddEntriesOfTheWatchedDirectoryAreNotFatal$", quick=400, thorough=8000, shards_thorough=2),
       dict(run="^TestTokenEndpointAnswersToTheRuleProvider$", quick=1200, thorough=3000, shards_thorough=2),
       dict(run="^FuzzRuleSetBytes$", fuzz=True, quick=1, thorough=1, shards_thorough=1, fuzztime_thorough=240, fuzz_workers=6),
@@ -459,7 +461,7 @@ ADDED = {
     "C04": "Also: jwt / oauth2_introspection authenticators with an issuer-templated metadata endpoint, tokens without issuer or key id, credentials with white "
            "space inside, algorithm confusion tokens, the scheme in other cases. Bearer tokens travelling as query parameter (also with the name of the parameter spelled with an escape sequence) and as body parameter. Bodies with GET and JSON bodies as carriers of a token. An identity endpoint which refuses the session with 400, 403, 404 or 422.",
     "C05": "Also: scope matching strategies with near-miss scopes, issuer-templated key set endpoints, issuers which read almost like a trusted one, nbf / "
-           "iat / exp beyond what 64 bit seconds or time.Time represent; the reference verifies over the canonical encoding of header and payload. NumericDates spelled with fraction and exponent.",
+           "iat / exp beyond what 64 bit seconds or time.Time represent; the reference verifies over the canonical encoding of header and payload. NumericDates spelled with fraction and exponent. Granted scopes which repeat some of the required ones while another one is missing.",
     "C02": "Also: the second repository may have been in use and emptied before the rule sets arrive.",
     "C07": "Also: versions reported as update although nothing of the source is loaded. Versions whose first rule claims the shared expression while later rules are unproblematic.",
     "C06": "Also: a concurrent unit - the histories of three sources with disjoint expressions applied at the same time must end like a fresh load.",
@@ -471,11 +473,11 @@ ADDED = {
            "Expires values, custom claims naming exp. The default lifetime of an endpoint's HTTP cache across two catalogue mechanisms calling the same url. Cache-Control directives on several header lines, Last-Modified next to explicit lifetimes, Age values up to beyond what a duration holds. Sessions of the generic authenticator which ended at, just before or just after the start of the epoch. A sequence over time on the recording cache's clock: a hit within the lifetime, then a request after the lifetime counted from the first store has to reach the remote side.",
     "C11": "Also: the endpoint-level HTTP cache (POST, and GET with Vary), name lists shifted against the payload, overridden names of forwarded headers / "
            "cookies, outputs of earlier steps in endpoint templates and in jwt claims (token reuse), a second catalogue entry validating the session lifetime, a key "
-           "store replaced under the same key id between the executions, jwt authenticators with different trust stores. Two catalogue entries whose endpoint settings are shifted across a boundary (header name/value, basic auth user/password, api key name/value), a second generic authenticator sending another payload, answers in YAML with expressions calculating with a number, subjects with the same id whose attributes differ in the ends of nested elements or the type of a value. Vary on several header lines with Authorization first; url and Authorization header of an endpoint shifted across their boundary with only the HTTP cache in use. Values rendered from request bytes which are no valid UTF-8; one jwt authenticator for two issuers told apart by a rendered endpoint header. A second introspection authenticator asking the same endpoint for another realm (header named in lower case).",
+           "store replaced under the same key id between the executions, jwt authenticators with different trust stores. Two catalogue entries whose endpoint settings are shifted across a boundary (header name/value, basic auth user/password, api key name/value), a second generic authenticator sending another payload, answers in YAML with expressions calculating with a number, subjects with the same id whose attributes differ in the ends of nested elements or the type of a value. Vary on several header lines with Authorization first; url and Authorization header of an endpoint shifted across their boundary with only the HTTP cache in use. Values rendered from request bytes which are no valid UTF-8; one jwt authenticator for two issuers told apart by a rendered endpoint header. A second introspection authenticator asking the same endpoint for another realm (header named in lower case). YAML answers under every content type this format goes by, with and without parameters. Catalogue entries differing in the header or scheme under which a client-credentials token is sent to the endpoint.",
     "C12": "Also: panicking mechanisms, more foreign causes (context.Canceled, url.Error wrapping it, net / os errors, JSON syntax error, gRPC status). Chains of three with a nested chain (with and without context) in the middle and the kind at the end. Relative references as redirect targets.",
     "C13": "Also: the check request as Envoy's API describes it (request target incl. query as path, pseudo headers), the decision service asked the way a gateway "
            "does (X-Forwarded-* from a trusted proxy), extension methods, chunked bodies, duplicate / quoted cookies, content type spellings, raw path and URL "
-           "string and Host header in the view, empty-valued and odd pipeline headers / cookies, characters not valid in an escaped path. Queries holding a question mark, a slash, semicolons, empty members.",
+           "string and Host header in the view, empty-valued and odd pipeline headers / cookies, characters not valid in an escaped path. Queries holding a question mark, a slash, semicolons, empty members. Cookies next to elements of the Cookie header which are no well-formed cookies.",
     "C01": "Also: steps failing with an abandoned or timed out call as cause (context.Canceled / DeadlineExceeded inside and outside of a heimdall error). "
            "A concurrent unit under the race detector: requests for which the condition of a denying step holds and requests for which it does not run through "
            "the same rules from 12 goroutines on every entry point; none of the former is answered positively. Pipelines put together stage by stage from a rule and the default rule.",
@@ -483,14 +485,14 @@ ADDED = {
            "the catalogue entry, its variants and other authenticators are those of a world in which nobody did. Pairs of overrides which read the same once quotes and the ends of elements are dropped. Executions which fail for lack of credentials in the race unit; an expression using networks() with an argument which changes from request to request, asked from 8 goroutines.",
     "C14": "Also: generated on_error pipelines with repeated handlers and overrides, overrides which are not a mapping. A rule for a deeper path loaded before the rule under test. The rule set arriving as an update of a version which differs in the rule's on_error list only. A concurrent unit under the race detector: rules inheriting an authorization stage of 1 to 7 steps with finalizers of their own, asked from 9 goroutines.",
     "C15": "Also: allow_encoded_slashes on (listed finding), add_path_prefix with characters not valid in a path, extension and mixed-case methods, IPv6 peers in "
-           "Forwarded (RFC 7239 form), unparsable queries, an empty pipeline header. A path which is nothing but the stripped prefix, X-Forwarded-Host / -Proto produced by the pipeline against the same headers of a trusted client. A Forwarded header on two lines.",
-    "C16": "Also: every signer of a multi-signer setup, tokens handed out after reloads, a token cache with a rule using the finalizer as in the catalogue, empty subject ids. A certificate of the active key which runs out while heimdall serves requests (unit with real waiting). Signer names with white space; a unit with two signers whose key id, algorithm and name read alike when written one after another (token cache in use). The scheduled unit also runs with a token cache and asks for one more token after the threads are done.",
+           "Forwarded (RFC 7239 form), unparsable queries, an empty pipeline header. A path which is nothing but the stripped prefix, X-Forwarded-Host / -Proto produced by the pipeline against the same headers of a trusted client. A Forwarded header on two lines. A trusted gateway whose request line is not the original target (X-Forwarded-Uri names it, with and without a query).",
+    "C16": "Also: every signer of a multi-signer setup, tokens handed out after reloads, a token cache with a rule using the finalizer as in the catalogue, empty subject ids. A certificate of the active key which runs out while heimdall serves requests (unit with real waiting). Signer names with white space; a unit with two signers whose key id, algorithm and name read alike when written one after another (token cache in use). The scheduled unit also runs with a token cache and asks for one more token after the threads are done. A unit with certificate chains made at run time, whose certificate of the key runs out before or after the ones of its authorities, and with collections of the certificate expiry metrics (which read the chain) between the requests: the published key set stays the same and fits its keys.",
     "C18": "Also: the real inotify watcher following one file (rewrites, atomic replacements, ConfigMap layout, removal and re-creation), an S3 compatible server for "
            "the documented single-object URL, an object replaced between the requests of one poll, content type spellings, empty content as line break / comments, "
            "Kubernetes tombstones / status values / re-created objects, per-object independence in buckets. Endpoint urls which are not in the spelling a url library writes them (non-ASCII, braces, lower-case escapes). A ConfigMap link replaced in two steps (removed, then created again).",
     "C19": "Also: rule sets with references to the environment (shell parameter expansion forms), a rule set file vanishing while it is read (named pipe), malformed "
            "objects of a bucket, key stores with usable keys followed by an unusable one, P-521 keys, encrypted keys with DER-aware edits, cyclic issuers, the token "
-           "issued after a reload attempt must verify with the published key set, which is unchanged after a refused reload; native fuzz targets. The credentials file of the redis cache reloaded with truncated, null-document and hostile contents. Entries of the watched directory which cannot be stat'ed or read (links in cycles, through regular files, to over-long names, directories, unreadable files). RSA keys of sizes nobody planned for (generated).",
+           "issued after a reload attempt must verify with the published key set, which is unchanged after a refused reload; native fuzz targets. The credentials file of the redis cache reloaded with truncated, null-document and hostile contents. Entries of the watched directory which cannot be stat'ed or read (links in cycles, through regular files, to over-long names, directories, unreadable files). RSA keys of sizes nobody planned for (generated). Templates without anything to render (comments, definitions only), without an end or with references to nothing, as templated values of rule sets. A unit with trust-store files of any content (empty, no PEM data, truncated, text around the entries, other kinds of entries) for the jwt authenticator.",
     "C20": "Also: relative redirect targets, YAML-lookalike strings, a conflicting assignment by a variable which is set and empty. List indices written with leading zeros. Prefixes of the variables in lower or mixed case and without trailing separator. Endpoints in their short form (a string), and the conflict short form in the file against members in the environment. A cache section; after the loads of a case a configuration defining nothing still consists of the defaults written down at the start of the process.",
 }
 
